@@ -1,8 +1,10 @@
-(* Proof/ChanPipeRefute.v -- finding F18 in the model: the full wire statement is false.
-   The schedule is the one found on the real code (checks/C04.py, harness.chanpipe.F18_CHOICES),
-   reduced to its essential steps: the worker's send_continue() and the I/O thread's unlocked
-   _flush_some both fetch the same chunk (the response to request 0 followed by the interim
-   response for request 1) and both send it. *)
+(* Proof/ChanPipeRefute.v -- finding F18 (repaired by 8bcf05e) in the model: for the PREVIOUS shape of
+   handle_write (p_unlocked = true: `if not self.requests: flush = self._flush_some`, without
+   outbuf_lock) the wire statement is false.  The schedule is the one found on the then real code
+   (harness.chanpipe.F18_CHOICES), reduced to its essential steps: the worker's send_continue() and
+   the I/O thread's unlocked _flush_some both fetch the same chunk (the response to request 0
+   followed by the interim response for request 1) and both send it.  The same schedule on the
+   current shape (p_unlocked = false) is harmless: the I/O thread's try-acquire fails. *)
 From Coq Require Import List Arith Bool ZArith.
 From WV Require Import Model.ChanPipe Proof.ChanPipeBase Proof.ChanPipeOwn Proof.ChanPipeLog
                        Proof.ChanPipeOut Proof.ChanPipeOutStep Proof.ChanPipeSpec.
@@ -11,7 +13,7 @@ Import ListNotations.
 (* GET /a (one write_soon of 5 bytes) pipelined with the head of POST /b, Expect: 100-continue,
    body not yet sent; one worker; lookahead 0; send_bytes 1; "100 Continue" abbreviated to 2 bytes *)
 Definition P18 : params :=
-  {| p_look := 0; p_sb := 1%Z; p_clen := 2; p_nw := 1;
+  {| p_look := 0; p_sb := 1%Z; p_clen := 2; p_nw := 1; p_unlocked := true;
      p_script := [ {| r_expect := false; r_nobody := false; r_writes := [5]; r_close := false |};
                    {| r_expect := true; r_nobody := false; r_writes := [3]; r_close := false |} ] |}.
 
@@ -46,13 +48,18 @@ Lemma f18_rest : once_ok (run P18 sched18) = true /\ one_ok P18 (run P18 sched18
                  entry_ok P18 (run P18 sched18) = true.
 Proof. vm_compute. auto. Qed.
 
-Theorem wire_refuted : exists P sched, ~ wire_statement P (run P sched).
+Theorem wire_refuted_old : exists P sched, p_unlocked P = true /\ ~ wire_statement P (run P sched).
 Proof.
-  exists P18, sched18. intros [H _].
-  assert (L : length (wire (sh (run P18 sched18)) ++ pending (sh (run P18 sched18)) ++ discarded (sh (run P18 sched18)))
-              = length (produced (sh (run P18 sched18)))) by (rewrite H; reflexivity).
+  exists P18, sched18. split; [reflexivity|]. intros [H _].
+  assert (L : length (wire (sh (run P18 sched18)) ++ pending (sh (run P18 sched18)))
+              = length (kept (sh (run P18 sched18)))) by (rewrite H; reflexivity).
   vm_compute in L. discriminate.
 Qed.
 
-Corollary wire_full_refuted : exists P, ~ C04_wire_full P.
-Proof. destruct wire_refuted as (P & sched & H). exists P. intro F. apply H. apply F. Qed.
+(* the repaired shape under the same schedule: the try-acquire of the I/O thread fails (the worker
+   holds outbuf_lock), nothing is sent twice *)
+Definition P18_fixed : params :=
+  {| p_look := 0; p_sb := 1%Z; p_clen := 2; p_nw := 1; p_unlocked := false; p_script := p_script P18 |}.
+
+Lemma f18_fixed_wire : wire (sh (run P18_fixed sched18)) = chunk18.
+Proof. vm_compute. reflexivity. Qed.
